@@ -18,7 +18,39 @@ def _buckets_of(mod, spec):
     return keys
 
 
+def _scratch_dir():
+    """Per-run scratch directory (removed on exit): every temp file of the run, also those of the
+    forked shard workers, lives below it.  tmpfs when available (SQLite is then much faster)."""
+    import shutil
+    import tempfile
+    base = os.environ.get("VERIF_TMP")
+    if not base:
+        base = None
+        try:
+            if os.path.isdir("/dev/shm") and os.access("/dev/shm", os.W_OK) and \
+                    shutil.disk_usage("/dev/shm").free > (4 << 30):
+                base = "/dev/shm"
+        except OSError:
+            base = None
+    d = tempfile.mkdtemp(prefix="vrun-", dir=base)
+    os.environ["VERIF_TMP"] = d
+    os.environ["TMPDIR"] = d
+    tempfile.tempdir = d
+    return d
+
+
 def main(argv=None):
+    import shutil
+    scratch = _scratch_dir()
+    owner = os.getpid()
+    try:
+        return _main(argv)
+    finally:
+        if os.getpid() == owner:
+            shutil.rmtree(scratch, ignore_errors=True)
+
+
+def _main(argv=None):
     ap = argparse.ArgumentParser()
     ap.add_argument("pid")
     ap.add_argument("--tier", default=os.environ.get("VERIF_TIER", "quick"),
